@@ -1,7 +1,7 @@
 SPECIFICATION GSpec
 CONSTANTS
   NMods = 3
-  Choices = {1, 2, 3, 4, 5, 6, 7, 8, 9, 10}
+  Choices = {1, 2, 3, 4, 5, 6, 7, 8, 9, 10, 11}
   Splits = {0, 1, 2}
   Scen = {"plain1", "share1", "twice1", "plain2", "share2", "twice2", "plain3", "plain4", "share3", "twice3"}
 INVARIANT Emit1
